@@ -1,10 +1,13 @@
 import RisorModel.Util
 import RisorModel.C04.Model
 import RisorModel.C04.FragCertOracle
+import RisorModel.C04.FunCertOracle
 /-! Line-protocol front end of the C04 model.
   `stack <main|fn> <instruction text>` → `accept <max height> <n reachable>` | `reject <offset: reason>` | `error <decode problem>`
   `cert <main|fn> <instruction text>` → the accepted certificate itself (heights per slot)
-  `fragcert <sexp> <globals> <instruction text>` → see FragCertOracle.lean (the certificate of the proved fragment on real bytecode) -/
+  `fragcert <sexp> <globals> <instruction text>` → see FragCertOracle.lean (the certificate of the proved fragment on real bytecode)
+  `funcert <sexp> <globals> <id=…;ins=… per code object, joined by |>` → see FunCertOracle.lean (the certificates of the proved
+      FUNCTION fragment on the real bytecode of every code object) -/
 namespace Risor.C04
 
 def handle : List String → String
@@ -32,6 +35,8 @@ def handle : List String → String
           "accept\t" ++ ",".intercalate (cert.toList.map fun x => match x with | some h => toString h | none => "-")
         else "reject\tcertificate refused by the verified checker"
   | "fragcert" :: rest => handleFragCert rest
+  | "funcert" :: rest => handleFunCert rest
+  | "funin" :: rest => handleFunIn rest
   | _ => "error\tunknown-request"
 
 end Risor.C04
